@@ -16,6 +16,9 @@ func (eng *Engine) lemmaObligation(lp *LoadedPkg, lm *Lemma) (o *Obligation, err
 		}
 	}()
 	e := eng.newEnc(lp, nil, &FuncContract{Props: lm.Props}, 2, nil, map[string]bool{}, map[string]string{}, nil)
+	for _, u := range lm.Uses {
+		e.useLemma(strings.TrimSpace(u), nil, nil)
+	}
 	bound := map[string]TV{}
 	for _, p := range lm.Params {
 		c := e.s.Const("lp:"+p.Name, specSort(p.Typ))
